@@ -1628,6 +1628,9 @@ def exact_dist(rng, n):
     m = int(rng.integers(1, min(a, b) + 1))
     ws = [[1], [1, 1], [1, 3], [2, 1, 1], [5, 3], [1, 2, 5], [4, 2, 1, 1], [7, 1], [3, 3, 1, 1], [1, 1, 1, 1, 4]]
     w = [x for x in ws[int(rng.integers(len(ws)))]][:m]
+    if n % 3 == 0:          # strictly positive model: square, every cyclic shift used
+        a = b = m = int(rng.integers(1, 5))
+        w = [[1], [1, 3], [2, 1, 1], [4, 2, 1, 1]][m - 1]
     while sum(w) & (sum(w) - 1):
         w[0] += 1
     shifts = rng.permutation(m)[:len(w)]
